@@ -13,7 +13,6 @@ import (
 // C09, ring packing: one long-lived rlwe.RingPackingEvaluator splits, merges and extracts over rings of
 // different degree, with receivers that are new or were used before (other level, content and metadata) and
 // scratch poisoning between the steps; every step is mirrored by a new evaluator on copies with new receivers.
-// Pack and Repack are left out: their documentation describes them as working inside the map they are given.
 
 func c09RingPackRun(ctx *core.RunCtx) {
 	ch := ctx.Ch
@@ -74,8 +73,8 @@ func c09RingPackRun(ctx *core.RunCtx) {
 			ctx.Count("poisoned-bytes", int64(st.Bytes))
 		}
 		twin := rlwe.NewRingPackingEvaluator(cc.evk)
-		kind := ch.Draw("op", 5)
-		name := []string{"Split", "Merge", "Extract", "ExtractNaive", "Expand"}[kind]
+		kind := ch.Draw("op", 8)
+		name := []string{"Split", "Merge", "Extract", "ExtractNaive", "Expand", "Repack", "RepackNaive", "Pack"}[kind]
 		cls := "ringpacking|" + name
 		ctx.Count("oracle.twin-step", 1)
 		ctx.Count("op.ringpacking."+name, 1)
@@ -211,6 +210,64 @@ func c09RingPackRun(ctx *core.RunCtx) {
 			if st.kind == 0 && hmap(m) != hmap(tm) {
 				ctx.Fail("result", cls+"|differs", "%s on the used evaluator (scratch poisoned: %d bytes) gives other ciphertexts than a new evaluator", name, nPoison)
 				return
+			}
+		case 5, 6, 7:
+			// a map of ciphertexts of the smallest ring into one ciphertext: the map and the ciphertexts in it are inputs
+			var keys []int
+			for k := range cc.small {
+				keys = append(keys, k)
+			}
+			sort.Ints(keys)
+			in, tin := map[int]*rlwe.Ciphertext{}, map[int]*rlwe.Ciphertext{}
+			lv := ch.Draw("input-level", cc.small[keys[0]].Level()+1)
+			for _, k := range keys {
+				if kind == 7 && k >= 1<<cc.small[k].LogN() {
+					continue // Pack works inside one ring: indexes below its degree
+				}
+				if len(in) > 0 && !ch.Chance("include", 2, 3) {
+					continue
+				}
+				c := cc.small[k].CopyNew()
+				c.Resize(1, lv)
+				in[k], tin[k] = c, c.CopyNew()
+			}
+			hin := map[int]uint64{}
+			for k, c := range in {
+				hin[k] = hashCt(c)
+			}
+			var r, tr *rlwe.Ciphertext
+			logNSmall := cc.small[keys[0]].LogN()
+			f := func(e *rlwe.RingPackingEvaluator, m map[int]*rlwe.Ciphertext) (*rlwe.Ciphertext, error) {
+				switch kind {
+				case 5:
+					return e.Repack(m)
+				case 6:
+					return e.RepackNaive(m)
+				}
+				return e.Pack(m, logNSmall, true)
+			}
+			st := c09Exec(func() (err error) { r, err = f(sys, in); return })
+			tst := c09Exec(func() (err error) { tr, err = f(twin, tin); return })
+			ctx.Event("ringpacking step %d %s level=%d inputs=%d poison=%d -> %d/%d", s, name, lv, len(hin), nPoison, st.kind, tst.kind)
+			if len(in) != len(hin) {
+				ctx.Fail("inputs", cls+"|input-modified", "%s changed the map of ciphertexts it was given (%d entries before, %d after)", name, len(hin), len(in))
+				return
+			}
+			for k, c := range in {
+				if c == nil || hashCt(c) != hin[k] {
+					ctx.Fail("inputs", cls+"|input-modified", "%s modified the ciphertexts of the map it was given (entry %d)", name, k)
+					return
+				}
+			}
+			if st.kind != tst.kind {
+				ctx.Fail("status", cls+"|status-differs", "%s: %s ; a new evaluator: %s", name, st, tst)
+				return
+			}
+			if st.kind == 0 {
+				if ok, w := eqCt(pOf(r), r, tr); !ok {
+					ctx.Fail("result", cls+"|differs", "%s on the used evaluator (scratch poisoned: %d bytes) gives another ciphertext than a new evaluator: %s", name, nPoison, w)
+					return
+				}
 			}
 		default:
 			var keys []int
